@@ -1209,6 +1209,62 @@ fn point_result(op: &str, flags: u32, items: &[Vec<u8>]) -> Result<Vec<u8>, Stri
 
 pub fn oracle(name: &str, rng: &mut Rng, n: usize, _tier: &str) -> OracleReport {
     let mut rep = OracleReport::default();
+    if name == "crypto_budget" {
+        // C02 for programs made of one cryptographic operator call: a run that succeeds with cost C under an
+        // unlimited budget succeeds identically under budget C and (old cost model) fails with CostExceeded
+        // under C - 1, including calls with no operands / no pairs.  (At *operator* level the cost of the
+        // result allocation is added after the operator's last internal check: only run_program is tight.)
+        let opcode = |op: &str| -> Option<u8> {
+            Some(match op {
+                "sha256" => 11, "point_add" | "g1_add" => 29, "pubkey_for_exp" => 30, "coinid" => 48, "g1_subtract" => 49, "g1_multiply" => 50,
+                "g1_negate" => 51, "g2_add" => 52, "g2_subtract" => 53, "g2_multiply" => 54, "g2_negate" => 55, "g1_map" => 56, "g2_map" => 57,
+                "bls_pairing_identity" => 58, "bls_verify" => 59, "keccak256" => 62, "secp256k1_verify" => 64, "secp256r1_verify" => 65,
+                _ => return None,
+            })
+        };
+        let mut cases: Vec<Case> = vec![];
+        let g2_identity = T::A(G2Element::default().to_bytes().to_vec());
+        for flags in [0u32, 0x2000] {
+            cases.push(Case { op: "bls_verify", flags, args: T::list(vec![g2_identity.clone()]) });
+            for op in ["g1_add", "g2_add", "g1_subtract", "g2_subtract", "bls_pairing_identity", "sha256", "keccak256"] {
+                cases.push(Case { op, flags, args: T::list(vec![]) });
+            }
+        }
+        for _ in 0..n {
+            cases.push(random_case(rng));
+        }
+        for c in cases {
+            let Some(code) = opcode(c.op) else { continue };
+            let Some(args) = crate::trees::from_hex(&c.args.hex()) else { continue };
+            let mut items = vec![];
+            let mut cur = &args;
+            while let crate::trees::T::Pair(a, b) = cur {
+                items.push(crate::progs::quote((**a).clone()));
+                cur = b;
+            }
+            let prog = crate::progs::call(code, items);
+            let env = crate::trees::T::nil();
+            let flags = (c.flags | 0x100 | 0x800) & !0x2;
+            let base = crate::interp_oracles::run_full("chia", flags, 0, &prog, &env, "");
+            rep.evaluations += 1;
+            rep.hit(c.op);
+            let Ok((cost, _)) = &base.res else { continue };
+            let cost = *cost;
+            rep.nontrivial += 1;
+            let d = || format!("{} flags={:x} prog={}", c.op, flags, crate::trees::to_hex(&prog));
+            let exact = crate::interp_oracles::run_full("chia", flags, cost, &prog, &env, "");
+            if exact.res != base.res {
+                rep.fail("crypto_budget_tight", format!("{} unlimited {:?} but budget={} {:?}", d(), base.res, cost, exact.res));
+            }
+            if cost > 0 && flags & 0x2000 == 0 {
+                let short = crate::interp_oracles::run_full("chia", flags, cost - 1, &prog, &env, "");
+                if !matches!(&short.res, Err((k, _)) if k == "CostExceeded") {
+                    rep.fail("crypto_budget_tight", format!("{} cost {} but budget={} {:?}", d(), cost, cost - 1, short.res));
+                }
+            }
+        }
+        return rep;
+    }
     match name {
         "crypto_vectors" => {
             // implementation vs the blspy/… generated vector files
